@@ -280,7 +280,13 @@ def _known(t: ast.AST, p: bool, have: set) -> bool:
 
 # ----------------------------------------------------------------------------- pattern matching
 def pat(src: str) -> ast.AST:
-    return ast.parse(src, mode="eval").body
+    """An expected expression, in the canonical spelling the loader gives the code (lambda parameters by position, canon pass A)."""
+    t = ast.parse(src, mode="eval")
+    if "lambda" in src:
+        from .canon import _Alpha
+
+        _Alpha().visit(t)
+    return t.body
 
 
 def match(pattern, node, b: Optional[Dict[str, ast.AST]] = None) -> Optional[Dict[str, ast.AST]]:
